@@ -815,6 +815,19 @@ def np_sum(I, x, axis=None):
     return py_sum(I, x)
 
 
+def np_const_array(value):
+    def f(I, n, dtype=None, order=None):
+        if isinstance(n, tuple):
+            raise Unsupported("np.zeros/ones with a shape tuple")
+        if isinstance(n, Num):
+            if not n.is_const():
+                return SymSeq("const(%s)" % value, n, lambda i: value)
+            n = int(n.const_value())
+        return NpArr([value] * n)
+
+    return f
+
+
 def np_fromiter(I, x, dtype=None, count=-1):
     if isinstance(x, SymSeq):
         return x
@@ -912,7 +925,7 @@ def _mkset(I, x):
 EXTERNAL = {n: PyBuiltin(n, f) for n, f in {
     "numpy.log": np_log, "numpy.exp": np_exp, "numpy.log1p": np_log1p, "numpy.square": np_square, "numpy.array": np_array,
     "numpy.asarray": np_asarray, "numpy.sum": np_sum, "numpy.fromiter": np_fromiter, "numpy.isneginf": np_isneginf,
-    "numpy.isinf": np_isinf, "numpy.max": np_max, "math.lgamma": lambda I, x: _lgamma(I, x), "math.log": lambda I, x: _log(I, x),
+    "numpy.isinf": np_isinf, "numpy.max": np_max, "numpy.zeros": np_const_array(0), "numpy.ones": np_const_array(1), "math.lgamma": lambda I, x: _lgamma(I, x), "math.log": lambda I, x: _log(I, x),
     "math.exp": lambda I, x: _exp(I, x),
     "itertools.repeat": it_repeat, "itertools.combinations": it_combinations, "itertools.chain.from_iterable": it_chain_from_iterable,
     "collections.defaultdict": co_defaultdict, "collections.deque": co_deque,
